@@ -9,12 +9,17 @@ package newrelic
 
 import (
 	"encoding/json"
+	"fmt"
 	"io/ioutil"
 	"math"
 	"os"
 	"sort"
+	"strings"
+	"sync"
 	"testing"
 	"time"
+
+	"github.com/newrelic/newrelic-php-agent/daemon/internal/newrelic/collector"
 
 	flatbuffers "github.com/google/flatbuffers/go"
 
@@ -48,6 +53,7 @@ type c07Node struct {
 	Txn   string   `json:"txn"`
 	Ms    []c07TM  `json:"ms"`
 	Rules *string  `json:"rules"` // null: nil rule list
+	Via   string   `json:"via"`   // root "rules" node only: all | default | exit: the harvest path of a REAL processor
 }
 
 type c07Entry struct {
@@ -184,6 +190,202 @@ func c07Dump(mt *MetricTable) c07Table {
 	return out
 }
 
+// c07Via: the same contributions and rules through a REAL processor.  The collector's connect reply carries the rule
+// list, every "txn" node of the chain below the root arrives as a real TXN message, and the metric_data payload of the
+// harvest path named by via (all-at-once tick, default-data tick, final flush) is read back.  Only names under "Vf/"
+// (and the empty name) are kept (the daemon adds metrics of its own; the rules of these cases are anchored to "^Vf/").
+func c07Via(n *c07Node) (out c07Table, note string) {
+	out = c07Table{Max: limits.MaxMetrics, Entries: []c07Entry{}}
+	var chain []*c07Node
+	for b := n.B; b != nil && b.K == "txn"; b = b.B {
+		chain = append([]*c07Node{b}, chain...)
+	}
+	rules := "null"
+	if n.Rules != nil {
+		rules = *n.Rules
+	}
+	period := 60000
+	if n.Via == "default" {
+		period = 5000
+	}
+	var mu sync.Mutex
+	var payloads [][]byte
+	client := collector.ClientFn(func(cmd *collector.RpmCmd, cs collector.RpmControls) collector.RPMResponse {
+		data, _ := cs.Collectible.CollectorJSON(false)
+		switch cmd.Name {
+		case collector.CommandPreconnect:
+			return collector.RPMResponse{StatusCode: 200, Body: []byte(`{"redirect_host":"coll.example"}`)}
+		case collector.CommandConnect:
+			return collector.RPMResponse{StatusCode: 200, Body: []byte(fmt.Sprintf(`{"agent_run_id":"c07run","metric_name_rules":%s,`+
+				`"event_harvest_config":{"report_period_ms":%d,"harvest_limits":{"analytic_event_data":100,"custom_event_data":100,`+
+				`"error_event_data":100,"log_event_data":100}},"span_event_harvest_config":{"report_period_ms":%d,"harvest_limit":100}}`,
+				rules, period, period))}
+		case collector.CommandMetrics:
+			mu.Lock()
+			payloads = append(payloads, append([]byte(nil), data...))
+			mu.Unlock()
+		}
+		return collector.RPMResponse{StatusCode: 202}
+	})
+	p := NewProcessor(ProcessorConfig{Client: client})
+	p.trackProgress = make(chan struct{})
+	stop := make(chan struct{})
+	events := make(chan struct{}, 1024)
+	go func() {
+		for {
+			select {
+			case <-p.trackProgress:
+				select {
+				case events <- struct{}{}:
+				default:
+				}
+			case <-stop:
+				return
+			}
+		}
+	}()
+	defer close(stop)
+	go p.Run()
+	info := &AppInfo{License: "0123456789012345678901234567890123456789", Appname: "c07-via", AgentLanguage: "php",
+		AgentVersion: "1", Hostname: "h", Environment: JSONString(`[]`), Labels: JSONString(`[]`),
+		Settings: map[string]interface{}{"newrelic.distributed_tracing_enabled": false}}
+	info.AgentEventLimits.LogEventConfig.Limit = 20000
+	info.AgentEventLimits.SpanEventConfig.Limit = 10000
+	info.AgentEventLimits.CustomEventConfig.Limit = 100000
+	connected := false
+	for t0 := time.Now(); time.Since(t0) < 4*time.Second && !connected; time.Sleep(time.Millisecond) {
+		connected = p.IncomingAppInfo(nil, info).State == AppStateConnected
+	}
+	exit := func() {
+		done := make(chan struct{})
+		go func() { p.CleanExit(); close(done) }()
+		select {
+		case <-done:
+		case <-time.After(4 * time.Second):
+			note += "CleanExit did not return; "
+		}
+	}
+	if !connected {
+		exit()
+		return out, "the application did not connect (rule list refused?)"
+	}
+	waitEvent := func() {
+		select {
+		case <-events:
+		case <-time.After(2 * time.Second):
+			note += "no progress; "
+		}
+	}
+	for len(events) > 0 {
+		<-events
+	}
+	for _, tn := range chain {
+		b := flatbuffers.NewBuilder(0)
+		var vec flatbuffers.UOffsetT
+		if k := len(tn.Ms); k > 0 {
+			offs := make([]flatbuffers.UOffsetT, k)
+			for i := k - 1; i >= 0; i-- {
+				offs[i] = protocol.EncodeMetric(b, tn.Ms[i].Name, tn.Ms[i].D, tn.Ms[i].Scoped, tn.Ms[i].Forced)
+			}
+			protocol.TransactionStartMetricsVector(b, k)
+			for i := k - 1; i >= 0; i-- {
+				b.PrependUOffsetT(offs[i])
+			}
+			vec = b.EndVector(k)
+		}
+		nameOff := b.CreateString(tn.Txn)
+		protocol.TransactionStart(b)
+		protocol.TransactionAddName(b, nameOff)
+		protocol.TransactionAddPid(b, 4242)
+		if vec != 0 {
+			protocol.TransactionAddMetrics(b, vec)
+		}
+		data := protocol.TransactionEnd(b)
+		id := b.CreateString("c07run")
+		protocol.MessageStart(b)
+		protocol.MessageAddAgentRunId(b, id)
+		protocol.MessageAddDataType(b, protocol.MessageBodyTransaction)
+		protocol.MessageAddData(b, data)
+		b.Finish(protocol.MessageEnd(b))
+		if _, err := (CommandsHandler{Processor: p}).HandleMessage(RawMessage{Type: MessageTypeBinary, Bytes: b.FinishedBytes()}); err != nil {
+			note += "txn: " + err.Error() + "; "
+		}
+		waitEvent()
+	}
+	switch n.Via {
+	case "all", "default":
+		ty := HarvestAll
+		if n.Via == "default" {
+			ty = HarvestDefaultData
+		}
+		for id, ah := range p.harvests {
+			p.processorHarvestChan <- ProcessorHarvest{AppHarvest: ah, ID: id, Type: ty}
+		}
+		waitEvent()
+		for t0 := time.Now(); time.Since(t0) < 3*time.Second; time.Sleep(time.Millisecond) {
+			mu.Lock()
+			k := len(payloads)
+			mu.Unlock()
+			if k > 0 {
+				break
+			}
+		}
+		time.Sleep(5 * time.Millisecond)
+		mu.Lock()
+		first := len(payloads)
+		mu.Unlock()
+		exit()
+		mu.Lock()
+		payloads = payloads[:first] // the final flush only carries the daemon's own metrics
+		mu.Unlock()
+	default:
+		exit()
+	}
+	mu.Lock()
+	defer mu.Unlock()
+	for _, pl := range payloads {
+		var top []json.RawMessage
+		if json.Unmarshal(pl, &top) != nil || len(top) < 4 {
+			note += "unreadable metric payload; "
+			continue
+		}
+		var entries [][]json.RawMessage
+		json.Unmarshal(top[3], &entries)
+		for _, e := range entries {
+			if len(e) < 2 {
+				continue
+			}
+			var id struct {
+				Name  string `json:"name"`
+				Scope string `json:"scope"`
+			}
+			json.Unmarshal(e[0], &id)
+			if id.Name != "" && !strings.HasPrefix(id.Name, "Vf/") {
+				continue // (a name an "ignore" rule matched is reported under the empty name, as ApplyRules leaves it)
+			}
+			var d [6]float64
+			json.Unmarshal(e[1], &d)
+			en := c07Entry{Name: id.Name, Scope: id.Scope}
+			for i, x := range d {
+				if x != math.Trunc(x) || math.Abs(x) > 9.0e15 {
+					out.Inexact = true
+				}
+				en.D[i] = int64(x)
+			}
+			out.Entries = append(out.Entries, en)
+		}
+	}
+	sort.Slice(out.Entries, func(i, j int) bool {
+		a, b := out.Entries[i], out.Entries[j]
+		if a.Name != b.Name {
+			return a.Name < b.Name
+		}
+		return a.Scope < b.Scope
+	})
+	out.Count = len(out.Entries)
+	return out, note
+}
+
 func TestVerifC07(t *testing.T) {
 	inPath, outPath := os.Getenv("VERIF_IN"), os.Getenv("VERIF_OUT")
 	if inPath == "" {
@@ -204,7 +406,17 @@ func TestVerifC07(t *testing.T) {
 
 	tables := []c07Table{}
 	pres := []*c07Table{}
-	for _, n := range in.Tables {
+	notes := map[string]string{}
+	for i, n := range in.Tables {
+		if n.K == "rules" && n.Via != "" {
+			tb, note := c07Via(n)
+			if note != "" {
+				notes[fmt.Sprint(i)] = note
+			}
+			pres = append(pres, nil)
+			tables = append(tables, tb)
+			continue
+		}
 		if n.K == "rules" {
 			// root is ApplyRules: also dump the table it is applied to
 			mt := c07Eval(n.B, now)
@@ -249,7 +461,7 @@ func TestVerifC07(t *testing.T) {
 		}
 		rules = append(rules, o)
 	}
-	ob, _ := json.Marshal(map[string]interface{}{"tables": tables, "pres": pres, "rules": rules, "max_metrics": limits.MaxMetrics})
+	ob, _ := json.Marshal(map[string]interface{}{"tables": tables, "pres": pres, "rules": rules, "max_metrics": limits.MaxMetrics, "notes": notes})
 	if err := ioutil.WriteFile(outPath, ob, 0644); err != nil {
 		t.Fatal(err)
 	}
